@@ -7,7 +7,7 @@ from pyerr import exc_code
 import props.c06_impl as I
 
 PROP = 'C06'
-COQ_TARGETS = ['theories/NetFacts.vo', 'theories/NetTerm.vo', 'theories/NetTerm2.vo', 'theories/NetReply.vo', 'theories/NetOnce.vo', 'theories/NetRoute.vo', 'theories/NetArrive.vo', 'theories/NetLocal.vo', 'theories/NetBcast.vo', 'theories/NetTree.vo', 'theories/NetFlood.vo', 'theories/NetRound.vo', 'theories/NetCert.vo', 'theories/NetLbc.vo', 'theories/NetAnn.vo']
+COQ_TARGETS = ['theories/NetFacts.vo', 'theories/NetTerm.vo', 'theories/NetTerm2.vo', 'theories/NetReply.vo', 'theories/NetOnce.vo', 'theories/NetRoute.vo', 'theories/NetArrive.vo', 'theories/NetLocal.vo', 'theories/NetBcast.vo', 'theories/NetTree.vo', 'theories/NetFlood.vo', 'theories/NetRound.vo', 'theories/NetCert.vo', 'theories/NetLbc.vo', 'theories/NetAnn.vo', 'theories/NetPark.vo']
 COQ_IMPORTS = 'From Bac Require Import Base Net NetCert.'
 RULE = ('cases: (a) single-node scripts - a random node (station told nothing / its address / network+address, or router of 2..4 '
         'ports with or without an application) receives 1..6 events (cache learning, application sends of every address kind, '
@@ -19,7 +19,7 @@ RULE = ('cases: (a) single-node scripts - a random node (station told nothing / 
         'destination kind from random stations (and, in 40 % of the trees, from an application on a router), cold, organically warmed and installed caches; observed: the complete ordered trace of '
         'frames on every LAN and deliveries, compared with the model world run on the same script.  non-trivial = at least one frame '
         'or delivery results; distinct by full script.  (c) tree-cert - for random trees with installed caches the hypotheses of the tree theorems '
-        '(internet_okb, tree_tob, tree_fromb: levels / up-ports / parent ports found by BFS in the harness) are evaluated inside Coq on the model world; expected 1.')
+        '(internet_okb, tree_tob, tree_fromb: levels / up-ports / parent ports found by BFS in the harness) are evaluated inside Coq on the model world; expected 1.  The direct predicate also submits bursts: 2..4 packets for one remote network handed down in the same instant on cold trees.')
 TRUSTED = ['model coq/theories/Net.v written by hand after netservice.py:329-706, 878-1026 and vlan.py:55-131; tie = correspondence',
            'NPDUs are modelled in decoded form; the harness decodes LAN frames with its own decoder (c06_impl.npdu_decode); the NPCI codec is property C08',
            'RouterInfoCache is abstracted to its lookup function (snet, dnet) -> router MAC (coherent states only; property C19)']
@@ -849,6 +849,55 @@ def _names_non_local_port(topo, ri, local, replier_net, shown):
     return n != local and (n, m) in [(pn, bytes(pm)) for pn, pm in topo.routers[ri]]
 
 
+def check_burst(topo, src, sends, limit=WATCHDOG):
+    """a cold internetwork; station src hands several packets for the SAME remote network to its network layer in the
+    same instant (before anything is delivered), then the internetwork runs: every payload must reach exactly its
+    addressees, exactly once, showing the originator.  sends = [(kind, dest, recipients, payload)]"""
+    net = build(topo)
+    snet, smac = src
+    base = {'topology': topo.describe(), 'source': [snet, smac.hex()], 'burst': [[k, _jsonable(d), p.hex()] for k, d, _, p in sends]}
+    try:
+        for kind, dest, rec, payload in sends:
+            net.stations[src].send(dest, payload)
+        remaining = I.drain_upto(limit)
+    except Exception as x:
+        I.reset_tasks()
+        return dict(base, kind='burst-exception', exc=repr(x)[:200])
+    if remaining:
+        I.reset_tasks()
+        return dict(base, kind='burst-no-termination')
+    ups = [l for l in net.log if l[0] == 'up']
+    known = {b'\x10\x63' + p: (kind, dest, rec) for kind, dest, rec, p in sends}
+    for apdu, (kind, dest, rec) in known.items():
+        got = collections.Counter(l[1] for l in ups if l[4] == apdu)
+        want = collections.Counter(('s', n, m) for (n, m) in rec)
+        if got != want:
+            return dict(base, kind='burst-wrong-recipients', payload=apdu[2:].hex(), dest=_jsonable(dest), position=[p for _, _, _, p in sends].index(apdu[2:]),
+                        got=sorted(map(str, got.elements())), want=sorted(map(str, want.elements())))
+        for l in ups:
+            if l[4] == apdu and l[2] != ('rs', snet, smac):
+                return dict(base, kind='burst-wrong-source-shown', shown=str(l[2]))
+    if any(l[4] not in known for l in ups):
+        return dict(base, kind='burst-stray-delivery')
+    return None
+
+
+def rnd_burst(rng, topo, src, tag):
+    """2..4 submissions from src toward one remote network: unicasts (same / different stations) and remote broadcasts"""
+    snet = src[0]
+    dn = rng.choice([n for n in topo.nets if n != snet])
+    out = []
+    for k in range(rng.randrange(2, 5)):
+        payload = bytes([tag % 256, k, rng.randrange(256)])
+        if rng.random() < 0.35:
+            out.append(('remote-broadcast', ('rb', dn), [(dn, m) for m in topo.nets[dn]], payload))
+        else:
+            prev = [x[1][2] for x in out if x[0] == 'unicast-remote']
+            m = rng.choice(prev) if prev and rng.random() < 0.4 else rng.choice(topo.nets[dn])
+            out.append(('unicast-remote', ('rs', dn, m), [(dn, m)], payload))
+    return out
+
+
 def check_router_app_origin(topo, ri, dest, payload):
     """the application on router ri sends; every recipient replies to the source it was shown; the replies must
     reach the router application (reply-routability clause with a router-resident originator)"""
@@ -933,6 +982,19 @@ def direct(rng, tier, focus=()):
             nontriv.add((t, 'warm', k))
         if t == 0:
             samples.append({'direct': 'tree', 'topology': topo.describe(), 'combinations': len(triples)})
+    # --- bursts on cold trees: several packets for one remote network handed down before the path is known
+    for t in range(_n(400 if big else 60)):
+        topo = rnd_tree(rng, 6 if t % 2 else 3)
+        srcs = list(topo.station_ids)
+        # stations that were never told their network number first, then one that was
+        srcs.sort(key=lambda k: {'none': 0, 'addr': 1, 'net': 2}[topo.modes.get(k, 'net')])
+        picked = [srcs[0], srcs[-1]] if len(srcs) > 1 else srcs
+        for src in picked + [rng.choice(srcs)]:
+            f = check_burst(topo, src, rnd_burst(rng, topo, src, t))
+            n_eval += 1
+            hist['burst/' + topo.modes.get(src, 'net')] += 1
+            nontriv.add(('burst', t, src))
+            note(f)
     # --- an application that lives on a router
     for t in range(_n(40 if big else 10)):
         topo = rnd_tree(rng, 5, apps=True)
@@ -1037,6 +1099,15 @@ def replay(payload):
     elif 'topology' in f and 'events' in f:
         topo = Topo.from_desc(f['topology'])
         print('implementation:', impl_world(topo, [_unjson(e) for e in f['events']])[0][:400])
+    elif 'burst' in f and 'topology' in f:
+        topo = Topo.from_desc(f['topology'])
+        src = (f['source'][0], bytes.fromhex(f['source'][1]))
+        sends = []
+        for k, d, p in f['burst']:
+            d = _unjson(d)
+            rec = [(d[1], m) for m in topo.nets[d[1]]] if d[0] == 'rb' else [(d[1], d[2])]
+            sends.append((k, d, rec, bytes.fromhex(p)))
+        print('implementation:', check_burst(topo, src, sends))
     elif 'router' in f and 'topology' in f:
         topo = Topo.from_desc(f['topology'])
         print('implementation:', check_router_app_origin(topo, f['router'], _unjson(f['dest']), bytes.fromhex(f['payload'])))
